@@ -161,6 +161,11 @@ func (r *vsfRows) Next(dest []driver.Value) error {
 	if err == io.EOF {
 		return err
 	}
+	if err == nil && len(dest) == 4 && vsfFault(3) {
+		// a scan failure cannot be returned by a driver: hand database/sql a position value it
+		// cannot convert into the int64 the store scans into (event rows only, as in the model)
+		dest[0] = "vsql: injected unscannable value"
+	}
 	return err
 }
 
